@@ -251,7 +251,7 @@ class OccImpl:
             empt = [self.cname(c) for c in cells if bool(data[c.coordinate])]
         else:
             empt = [self.cname(c) for c in cells if c.is_empty]
-        gens = sorted({self.cname(g) for g in [space.random, model.random] + [c.random for c in cells]})
+        gens = sorted({self.cname(g) for g in [space.random, model.random, space.all_cells.random] + [c.random for c in cells]})
         return "ok " + " ".join(parts) + " | " + " ".join(ags) + " | " + " ".join(empt) + " | " + " ".join(gens)
 
 
